@@ -152,6 +152,16 @@ ReadsAgree ==
     /\ \A p \in AllNodes : RD(s, p, "all", "", FALSE) = {e \in RD(s, p, "all", "", TRUE) : ~DeletedIn(s, e)}
     /\ RD(s, "root", "all", "", TRUE) = {<<Sentinel, R>>}
 
+\* C05 for moves and mirrors: a refused composite operation leaves no trace - from every reachable state
+Places == AllNodes \cup {Sentinel}
+MoveTs == 50      \* "now": later than every timestamp of the alphabet
+MovesAtomic == \A n \in AllNodes, old \in Places, new \in AllNodes :
+                  MoveAllOrNothing(s, n, old, new, MoveTs, "t", FALSE)
+MovesAtomicAsCoded == \A n \in AllNodes, old \in Places, new \in AllNodes :
+                  MoveAllOrNothing(s, n, old, new, MoveTs, "t", TRUE)
+MirrorsAtomic == \A n \in AllNodes, new \in AllNodes :
+                  LET r == Mirror(s, n, new, MoveTs, "t") IN r.reply = "err" => (r.s = s /\ r.out = {})
+
 \* ---------------------------------------------------------------- role 2
 gvars == <<s, delivered, n_ops, hist>>
 \* the read requests whose answers are predicted after a step: those around the written node and
@@ -183,7 +193,19 @@ GenNext == /\ n_ops < MaxOps
                                  IN hist' = Append(hist, [op |-> op, reply |-> r.reply, out |-> SetToSeqAny(r.out), obs |-> Obs(r.s),
                                                           q |-> Queries(r.s, op, n_ops + 1 = MaxOps)])
 GenSpec == GenInit /\ [][GenNext]_gvars
+MSpec == GenInit /\ [][UNCHANGED gvars]_gvars
 Dump == n_ops = MaxOps => PrintT(ToJson(hist))
+\* composite operations from the start shape: one line per (kind, node, old parent, new parent)
+EdgeView(st) == SetToSeqAny({[up |-> e[1], down |-> e[2], deleted |-> DeletedIn(st, e)] : e \in st.edges})
+MoveCases ==
+    {[k |-> "move", n |-> n, old |-> old, new |-> new] : n \in Nodes, old \in AllNodes, new \in AllNodes}
+    \cup {[k |-> "mirror", n |-> n, old |-> "", new |-> new] : n \in Nodes, new \in AllNodes}
+MoveDump ==
+    \A c \in MoveCases :
+        LET r == IF c.k = "move" THEN Move(InitS, c.n, c.old, c.new, MoveTs, "t", FALSE)
+                 ELSE Mirror(InitS, c.n, c.new, MoveTs, "t")
+        IN PrintT(ToJson([shape |-> ShapeHist, op |-> c, reply |-> r.reply, edges |-> EdgeView(r.s),
+                          out |-> SetToSeqAny(r.out)]))
 \* C01: one line per delivered set (subsets of the universe) with the expected read
 LwwSets == {S \in SUBSET LwwUniverse : Cardinality(S) >= 1 /\ Cardinality(S) <= 4}
 ASSUME Mode # "lwwsets" \/ PrintT(ToJson([universe |-> SetToSeqAny(LwwUniverse)]))
